@@ -408,6 +408,20 @@ GROUPS = {
              "exact init_of_step (body := gInitBody) rfl (by intro st; stateinit_eval) init_step (by decide)"),
         ],
     },
+    "adopt": {
+        "import": "Haiway.Bridge.Adopt", "open": "Haiway Haiway.MiniPy Haiway.Bridge.Adopt",
+        "defs": {
+            "gAdoptStep": Target("src/haiway/context/metrics.py", "ScopeMetrics", "__init__",
+                                 ["trace_id", "scope", "logger", "parent", "completion"], {},
+                                 {("parent._completed", "done"): (240, ["$parent"])}, obj_attrs={"_parent": 241, "_finished": 242}, part="while.step"),
+        },
+        "obligations": [
+            ("adopt_step", ["gAdoptStep"], "AdoptStep gAdoptStep {gAdoptStep.parent}",
+             "intro p st hp\n  unfold gAdoptStep\n  cases p with\n  | none => adopt_eval\n"
+             "  | some q => cases hc : st.world.completed q <;> adopt_eval"),
+            ("adopt_refines", ["gAdoptStep"], "AdoptRefines gAdoptStep {gAdoptStep.parent}", "exact adopt_of_step adopt_step"),
+        ],
+    },
     "completion": {
         "import": "Haiway.Bridge.Completion", "open": "Haiway.MiniPy Haiway.Bridge.Completion",
         "defs": {
